@@ -434,7 +434,7 @@ class Tensor:
             except ValueError as e:
                 raise RuntimeError('symtorch broadcast: ' + str(e))
             return _mk(a, dt, (self, o))
-        if _isinstance(o, (Z, C, SymInt)) or _isinstance(o, (int, _py_float, _py_complex, Fraction, _np.generic)) or (_isinstance(o, numbers.Number) and hasattr(o, 'to_z3')):
+        if _isinstance(o, (Z, C, SymInt, _sc.Havoc)) or _isinstance(o, (int, _py_float, _py_complex, Fraction, _np.generic)) or (_isinstance(o, numbers.Number) and hasattr(o, 'to_z3')):
             o = _pyify(o)
             dt = _result_dtype(self, o)
             oa = _objarr(o)
